@@ -1,6 +1,7 @@
 package rules
 
 import (
+	"fmt"
 	"golang.org/x/tools/go/ssa"
 	"verifcheck/internal/prog"
 	"verifcheck/internal/report"
@@ -114,6 +115,16 @@ func (c *Ctx) PART(rule string) []report.Obligation {
 		}
 		out = append(out, verdict(dep, rule+"-DEP", "WithServicesDisabled :: dependencies on the removed service dropped everywhere", c.P.Pos(f.Pos()),
 			"a range over all remaining Services deletes DependsOn[name]", "remaining services keep a depends_on entry for the removed service"))
+		// ... for every name given, whether or not it is an enabled service: no iteration of the loop over the
+		// names reaches the next one without running the range over Services
+		for _, l := range findMapLoops(f) {
+			if loadedField(l.rng.X) != "Services" {
+				continue
+			}
+			skip := skipsBlock(f, l.rng.Block())
+			out = append(out, verdict(skip == "", rule+"-DEP", "WithServicesDisabled :: for every name given", c.P.InstrPos(l.rng),
+				"every iteration over the names runs the range that strips the dependencies", "a name can be skipped before the dependencies on it are stripped ("+skip+"): services keep depending on a service that is not enabled"))
+		}
 	} else {
 		out = append(out, anchorViolation(rule+"-2", "types.(*Project).WithServicesDisabled"))
 	}
@@ -170,3 +181,42 @@ func (c *Ctx) PART(rule string) []report.Obligation {
 }
 
 var _ = report.Info
+
+// skipsBlock: b lies in a loop; it returns "" when every path from the loop header back to the header passes
+// through b, else a description of where the loop can go round without it. "not in a loop" when b is in none.
+func skipsBlock(fn *ssa.Function, b *ssa.BasicBlock) string {
+	h, body := naturalLoop(fn, b)
+	if h == nil {
+		return "not inside a loop"
+	}
+	seen := map[*ssa.BasicBlock]bool{}
+	var skip *ssa.BasicBlock
+	var dfs func(x *ssa.BasicBlock)
+	dfs = func(x *ssa.BasicBlock) {
+		if skip != nil || seen[x] || !body[x] || x == b {
+			return
+		}
+		seen[x] = true
+		for _, s := range x.Succs {
+			if s == h {
+				skip = x
+				return
+			}
+			dfs(s)
+		}
+	}
+	for _, s := range h.Succs {
+		if s == h {
+			skip = h
+		}
+		dfs(s)
+	}
+	if skip == nil {
+		return ""
+	}
+	line := 0
+	for i := len(skip.Instrs) - 1; i >= 0 && line == 0; i-- {
+		line = fn.Prog.Fset.Position(skip.Instrs[i].Pos()).Line
+	}
+	return "through the block ending at line " + fmt.Sprint(line)
+}
